@@ -109,13 +109,14 @@ class InMemoryFederatedData(federated_data.FederatedData):
     return iter(sorted(self._client_ids))
 
   def client_sizes(self) -> Iterator[Tuple[federated_data.ClientId, int]]:
+    # Sizes are the numbers of stored examples, as in SQLiteFederatedData.
     for client_id in self._client_ids:
       yield client_id, client_datasets.num_examples(
-          self._client_dataset(client_id).all_examples(), validate=False)
+          self._client_to_data_mapping[client_id], validate=False)
 
   def client_size(self, client_id: federated_data.ClientId) -> int:
     return client_datasets.num_examples(
-        self._client_dataset(client_id).all_examples(), validate=False)
+        self._client_to_data_mapping[client_id], validate=False)
 
   def clients(
       self
